@@ -9,7 +9,8 @@ From TP Require Import Base.PyVal Fields.FieldAst Fields.SetChain Fields.Doc Fie
   Struct.Shapes Struct.Instance Struct.Entry Struct.InstanceProofs Struct.NestedProofs
   Struct.EntrySites Struct.EntrySitesProofs Gen.EntrySites Struct.EntrySitesToday
   Base.PyOps Base.PyOpsEnum Gen.GuardsEnum Fields.EnumGuardProofs
-  Ser.Json Ser.Serialize Ser.Deserialize Ser.DeserEntry Ser.DeserEntryProofs Ser.DeserDeepProofs.
+  Ser.Json Ser.Serialize Ser.Deserialize Ser.DeserEntry Ser.DeserEntryProofs Ser.DeserDeepProofs
+  Struct.Defaults Struct.DefaultsProofs.
 Local Open Scope string_scope.
 
 (* Where the line between theorem and correspondence is:
@@ -123,6 +124,19 @@ Proof. exact sites_characterisation. Qed.
 Theorem C01_entry_sites_today : sites_ok entry_sites default_unpickle = true.
 Proof. exact entry_sites_today. Qed.
 
+(* ------------------------------------------------------------------ omitted fields and default factories
+   A field the caller leaves out is filled from its default through the same __set__ chain as a supplied value
+   (Structure._set_defaults -> setattr); [construct] does that for whatever classdef it is given.  A default
+   FACTORY (`default=<callable>`) returns a new value at every construction: [with_default c n d] is class c
+   at a moment when the factory of field n returns d.  Whatever d is, an instance that comes out is valid for
+   the class as declared (validity never looks at defaults). *)
+Theorem C01_construct_default_sound : forall re_match e c n d kw v,
+    kw_ok re_match e (with_default c n d) kw = true ->
+    defaults_ok re_match e (with_default c n d) = true ->
+    construct re_match e (with_default c n d) kw = Ok v ->
+    exists a, v = PStruct (c_name c) a /\ struct_ok re_match e c a = true.
+Proof. exact construct_default_sound. Qed.
+
 (* ------------------------------------------------------------------ deserialization with its real pre-processing
    [EDeser cls kw] above is parametric in the keyword arguments.  Ser/Deserialize.v models what
    deserialize_structure_internal computes from a document (field by field, nested structures,
@@ -216,6 +230,7 @@ Print Assumptions C01_entry_sites_sound.
 Print Assumptions C01_chain_sites_sound.
 Print Assumptions C01_sites_characterisation.
 Print Assumptions C01_entry_sites_today.
+Print Assumptions C01_construct_default_sound.
 Print Assumptions C01_deser_as_entry.
 Print Assumptions C01_deser_sound.
 Print Assumptions C01_deserialize_sound.
@@ -343,4 +358,15 @@ Example C01_deser_nonvacuous :
   deep_valid (fun _ _ => true) ex_env ex_doc = true /\
   deser_checked (fun _ _ => true) ex_env [] ex_flags 4 true (s2p "Point")
                 (PDict [(PStr (s2p "x"), PBool true)]) = Raise Unmodelled.
+Proof. repeat split; vm_compute; reflexivity. Qed.
+
+(* default factory: Point.y (Float, non-negative) whose factory now returns -1: the omitted field makes the
+   construction fail; returning 3 (an int), it is converted and stored; the hypotheses hold in both cases *)
+Example C01_default_nonvacuous :
+  kw_ok (fun _ _ => true) ex_env (with_default ex_point (s2p "y") (PNum (NInt (-1)))) [(s2p "x", PNum (NInt 1))] = true /\
+  defaults_ok (fun _ _ => true) ex_env (with_default ex_point (s2p "y") (PNum (NInt (-1)))) = true /\
+  construct (fun _ _ => true) ex_env (with_default ex_point (s2p "y") (PNum (NInt (-1)))) [(s2p "x", PNum (NInt 1))]
+    = Raise ValueError /\
+  construct (fun _ _ => true) ex_env (with_default ex_point (s2p "y") (PNum (NInt 3))) [(s2p "x", PNum (NInt 1))]
+    = Ok (PStruct (s2p "Point") [(s2p "y", PNum (NFlt 3 0)); (s2p "x", PNum (NInt 1))]).
 Proof. repeat split; vm_compute; reflexivity. Qed.
